@@ -42,13 +42,21 @@ def convert(raw, sid):
         if base == "compRolling":
             # ControllerRevisions take their labels from spec.template.metadata.labels, which must satisfy the selector
             parent["spec"]["template"] = {"metadata": {"labels": {"app": "x"}}}
-        method = {"compInPlace": "InPlace", "compRecreate": "Recreate", "compRolling": "RollingRecreate", "compFinalize": "InPlace"}[base]
+        method = {"compInPlace": "InPlace", "compRecreate": "Recreate", "compRolling": "RollingRecreate", "compFinalize": "InPlace", "compCustomize": "InPlace"}[base]
         cfg = {"kind": "composite", "parentRes": "parents", "children": [{"res": "things", "method": method}], "finalize": True}
         hook = {"sync": {"prog": "const", "children": [des("a"), des("b"), des("d")], "status": {"ok": "1"}},
                 "finalize": {"prog": "drain", "status": {"ok": "1"}}}
         key = "ns1/p"
         fix = ["a", "b", "d"]
         marker = ""
+    if base == "compCustomize":
+        # the sync hook wants child a only when it is sent the related ConfigMap the customize rules select
+        cfg["customize"] = True
+        cfg["finalize"] = False
+        objs = [parent, {"res": "configmaps", "name": "rel", "ns": "ns1", "labels": {"r": "1"}, "top": {"data": {"k": "v"}}}]
+        hook = {"sync": {"prog": "const", "children": [des("a")], "status": {"ok": "1"}, "needRelated": True},
+                "customize": {"prog": "const", "related": [{"apiVersion": "v1", "resource": "configmaps", "namespace": "ns1", "names": ["rel"]}]}}
+        fix = ["a"]
     if base == "compFinalize":
         # the parent is being deleted: the finalize hook drains the children, then the finalizer goes
         parent["deleting"] = True
@@ -57,7 +65,7 @@ def convert(raw, sid):
         fix = []
     sched = []
     if raw["hook"] != -1:
-        sched.append({"s": "hookfault", "hook": "finalize" if base == "compFinalize" else "sync", "code": raw["hook"]})
+        sched.append({"s": "hookfault", "hook": {"compFinalize": "finalize", "compCustomize": "customize"}.get(base, "sync"), "code": raw["hook"]})
     for f in (raw["f1"], raw["f2"]):
         if f["on"]:
             sched.append(fault_step(f))
@@ -82,6 +90,8 @@ def drift(scenarios, events):
                 anyerr[ev["sc"]] = True
     n, ex = 0, []
     for sc in scenarios:
+        if sc["cfg"].get("customize") and any(st.get("s") == "hookfault" and st.get("code") == 429 for st in sc["sched"]):
+            continue        # (what a 429 of the CUSTOMIZE hook amounts to is not part of the error table)
         if sum(1 for st in sc["sched"] if st.get("s") == "fault") > 1:
             # pairs: whether the second fault is reached in the first sync depends on the first one; the error
             # table is compared on single faults only (the monitors judge every scenario)
